@@ -384,7 +384,82 @@ def rule_d(ctx, out):
         raise AnalysisError("fewer than 2 must_reverse call sites found")
 
 
+def boolean_fields(ctx):
+    """Record keys that the specification writer only ever assigns boolean constants (or `True if c else False`), with both
+    values occurring: flags that must be read by value."""
+    vals = {}
+    for f in ctx.p.funcs_in("sfs_generator.gasol_optimization"):
+        for n in own_nodes(f.node):
+            if isinstance(n, ast.Assign) and len(n.targets) == 1 and isinstance(n.targets[0], ast.Subscript) and isinstance(n.targets[0].slice, ast.Constant) \
+                    and isinstance(n.targets[0].slice.value, str):
+                v = n.value
+                if isinstance(v, ast.Constant) and isinstance(v.value, bool):
+                    kind = {v.value}
+                elif isinstance(v, ast.IfExp) and all(isinstance(x, ast.Constant) and isinstance(x.value, bool) for x in (v.body, v.orelse)):
+                    kind = {v.body.value, v.orelse.value}
+                else:
+                    kind = {None}
+                vals.setdefault(n.targets[0].slice.value, set()).update(kind)
+    return sorted(k for k, v in vals.items() if v == {True, False})
+
+
+def rule_e(ctx, out):
+    """Boolean record fields are read by value.  The writer stores 'commutative' (and 'storage') in every record, so a test for the
+    key's presence is always true and allows swapped operands for every operation; and where a shortcut accepts the operands in
+    either order, the swapped order must be conjoined with the flag's value."""
+    flags = boolean_fields(ctx)
+    if "commutative" not in flags:
+        raise AnalysisError(f"'commutative' is not recognised as a boolean field (found {flags})")
+    n = 0
+    for f in ctx.p.functions.values():
+        if f.module.name.startswith(("tests", "sfs_generator.gasol_optimization")):
+            pass
+        for c in own_nodes(f.node):
+            # reads
+            if isinstance(c, ast.Subscript) and isinstance(c.slice, ast.Constant) and c.slice.value in flags and isinstance(c.ctx, ast.Load):
+                n += 1
+                out.ok({"function": f.qual, "read_by_value": short(c, 50)}, 1)
+            pres = None
+            if isinstance(c, ast.Compare) and len(c.ops) == 1 and isinstance(c.ops[0], (ast.In, ast.NotIn)) and isinstance(c.left, ast.Constant) and c.left.value in flags:
+                pres = c.left.value
+            if isinstance(c, ast.Call) and isinstance(c.func, ast.Attribute) and c.func.attr in ("get", "__contains__", "setdefault") and c.args \
+                    and isinstance(c.args[0], ast.Constant) and c.args[0].value in flags:
+                par = getattr(c, "_parent", None)
+                if c.func.attr == "__contains__" or (isinstance(par, ast.Compare) and any(isinstance(o, (ast.Is, ast.IsNot)) for o in par.ops)):
+                    pres = c.args[0].value
+            if pres:
+                n += 1
+                out.bad(f"flag-tested-for-presence:{f.name}:{pres}", f"{f.qual}: `{short(c, 60)}` tests whether the key '{pres}' is present; the writer stores that "
+                        f"boolean in every record, so the test is true for every operation", where(f, c))
+    # either-order shortcuts
+    m = 0
+    for f in ctx.p.funcs_in(GREEDY):
+        for b in own_nodes(f.node):
+            if not (isinstance(b, ast.BoolOp) and isinstance(b.op, ast.Or)):
+                continue
+            pairs = []
+            for v in b.values:
+                for c in ast.walk(v):
+                    if isinstance(c, ast.Compare) and len(c.ops) == 1 and isinstance(c.ops[0], ast.Eq) and isinstance(c.comparators[0], ast.List) \
+                            and len(c.comparators[0].elts) == 2:
+                        pairs.append((v, c, norm(c.left), [norm(e) for e in c.comparators[0].elts]))
+            for v1, c1, l1, e1 in pairs:
+                for v2, c2, l2, e2 in pairs:
+                    if c1 is not c2 and l1 == l2 and e1 == e2[::-1] and pairs.index((v1, c1, l1, e1)) < pairs.index((v2, c2, l2, e2)):
+                        m += 1
+                        guarded = isinstance(v2, ast.BoolOp) and isinstance(v2.op, ast.And) and any(
+                            isinstance(x, ast.Subscript) and isinstance(x.slice, ast.Constant) and x.slice.value == "commutative" for x in v2.values)
+                        if guarded:
+                            out.ok({"function": f.qual, "either_order_shortcut": short(b, 80), "swapped_order_requires": "record['commutative']"})
+                        else:
+                            out.bad(f"either-order-shortcut-without-flag:{f.name}:{l1}", f"{f.qual}: `{short(b, 90)}` accepts the operands in swapped order without "
+                                    f"requiring the operation's commutative flag to be true", where(f, b))
+    if m < 1:
+        raise AnalysisError("either-order shortcut of compute_one_with_stack not found")
+
+
 RULES = [
+    ("C04.e", "boolean record fields are read by value; swapped operands need the flag", 10, rule_e),
     ("C04.d", "operand order deviates from the specification only for commutative operations", 5, rule_d),
     ("C04.a", "SWAP/DUP emission bounds 1..16", 9, rule_a),
     ("C04.b", "failure containment of the greedy search", 8, rule_b),
